@@ -87,7 +87,7 @@ def norm_step(s):
             "tree": s.get("tree"), "exp": s.get("exp"), "obs": s.get("obs", True)}
 
 
-def apply_action(w: World, ex, s, wd_before: dict, opts: dict):
+def apply_action(w: World, ex, s, wd_before: dict, opts: dict, head: dict | None = None):
     a, p, q, cell = s["act"], s["p"], s["q"], s["cell"]
     if a == "Checkout":
         ex.checkout(s["tree"], opts.get("checkout", "checkout"))
@@ -112,7 +112,10 @@ def apply_action(w: World, ex, s, wd_before: dict, opts: dict):
     elif a == "StageAll":
         ex.stage_all()
     elif a == "Unstage":
-        ex.unstage(p, opts.get("unstage", "unstage"))
+        how = opts.get("unstage", "unstage")
+        if how == "restore" and head is not None and p not in head:
+            how = "unstage"     # restore(staged=True) is only defined for paths HEAD has; WorkTree.unstage drops an added path
+        ex.unstage(p, how)
     elif a == "RmCached":
         ex.rm_cached(p)
     elif a == "Commit":
@@ -149,7 +152,7 @@ def execute(w: World, ex, steps, opts: dict):
         s = norm_step(raw)
         ev = {"act": s["act"], "p": s["p"], "q": s["q"], "cell": s["cell"], "tree": s["tree"], "exp": s["exp"]}
         try:
-            apply_action(w, ex, s, wd, opts)
+            apply_action(w, ex, s, wd, opts, head)
         except Exception as e:          # noqa: BLE001 - whatever the entry point raises is the observation
             stop = {"kind": "action", "at": k, "act": s["act"], "exc": type(e).__name__, "msg": str(e)[:300],
                     "site": exc_site(e) if is_dul else "git", "tb": traceback.format_exc()[-1500:]}
